@@ -242,6 +242,16 @@ func (u *ufApp) mk(path string, t types.Type) Value {
 		u.once(nilsym, fmt.Sprintf("(=> %s (= %s (_ bv0 64)))", nilsym, ln))
 		return &SliceV{O: e.newObj(arr, "uf:"+u.base+path), Len: &BV{T: ln, W: 64}, Cap: bound, NilSym: nilsym}
 	case *types.Interface:
+		if ut.Empty() {
+			// decoded attribute values: nil or a string (every ASN.1 string type decodes to a Go string)
+			isNil := u.term(path+"!nil", "Bool")
+			if e.branch(&BoolV{T: isNil}) {
+				return &IfaceV{}
+			}
+			tm := u.term(path+"!str", "String")
+			u.once(tm, "(str.in_re "+tm+" "+byteRangeRe+")")
+			return &IfaceV{T: types.Typ[types.String], V: &StrV{T: tm}}
+		}
 		if types.Identical(t, types.Universe.Lookup("error").Type()) {
 			isErr := u.term(path+"!err", "Bool")
 			if !e.branch(&BoolV{T: isErr}) {
